@@ -421,18 +421,22 @@ class Gen:
         if isinstance(ob, list) and ob and ob[0] == "obj" and self.rng.random() < 0.8:
             self.emit(["LoadJson", ob])
 
+    def op_provn(self):
+        self.emit(["ExportProvn", str(self.rng.randrange(len(self.im.docs)))])
+
     PROFILES = {
         #            ns  bundle newrec factory addattr settime addtype addrec update addbdoc derive get  eq  newdoc
-        "records": [10, 4, 30, 30, 22, 6, 6, 2, 0, 0, 0, 3, 2, 1, 0],
-        "merge":   [8, 8, 22, 12, 6, 1, 2, 8, 10, 6, 10, 8, 3, 5, 0],
-        "mixed":   [8, 5, 22, 16, 10, 3, 3, 5, 5, 3, 6, 6, 4, 3, 0],
-        "json":    [10, 7, 26, 18, 10, 2, 4, 3, 3, 2, 2, 1, 1, 2, 9],
+        "records": [10, 4, 30, 30, 22, 6, 6, 2, 0, 0, 0, 3, 2, 1, 0, 0],
+        "merge":   [8, 8, 22, 12, 6, 1, 2, 8, 10, 6, 10, 8, 3, 5, 0, 0],
+        "mixed":   [8, 5, 22, 16, 10, 3, 3, 5, 5, 3, 6, 6, 4, 3, 0, 0],
+        "json":    [10, 7, 26, 18, 10, 2, 4, 3, 3, 2, 2, 1, 1, 2, 9, 0],
+        "provn":   [10, 7, 26, 18, 10, 2, 4, 3, 3, 2, 2, 1, 1, 2, 0, 9],
     }
 
     def run(self, n_ops):
         fns = [self.op_ns, self.op_new_bundle, self.op_new_record, self.op_factory, self.op_add_attrs, self.op_set_time,
                self.op_add_type, self.op_add_record, self.op_update, self.op_add_bundle_doc, self.op_derive, self.op_get,
-               self.op_eq, self.op_new_doc, self.op_json]
+               self.op_eq, self.op_new_doc, self.op_json, self.op_provn]
         weights = self.PROFILES[self.profile]
         self.op_new_doc()
         # a typical preamble: a couple of declared namespaces
